@@ -88,11 +88,11 @@ func c19Pipeline(cfg Config, first *BatchSpec, probes []string, label string) (d
 		{"in memory (top)", []string{"B0"}, nil},
 		{"after merger", []string{"M"}, nil},
 		{"after persist", []string{"Pb", "Pe"}, nil},
-		{"after reopen", []string{"R"}, nil},
 		{"second batch in memory", []string{"B1"}, nil},
 		{"second batch merged", []string{"M"}, nil},
 		{"second batch being persisted", []string{"Pb"}, nil},
 		{"second batch appended", []string{"Pe"}, nil},
+		{"after reopen", []string{"R"}, nil},
 		{"reopen with forced compaction", []string{"R"}, func() { w.cfg.Concern = 2 }},
 		{"third batch -> full compaction", []string{"B2", "M", "Pb", "Pe"}, nil},
 		{"reopen after compaction", []string{"R"}, func() { w.cfg.Concern = 0 }},
